@@ -87,24 +87,40 @@ def init (key : Bytes) : Except Err Keys :=
       else pure tt
     pure { Ke := W, Kd := Kd.flatten, rounds := ROUNDS }
 
+/-- one word of a table round:
+    `a[i] = (A[(t[i]>>24)&0xFF] ^ B[(t[(i+s1)%BC]>>16)&0xFF] ^ C[(t[(i+s2)%BC]>>8)&0xFF] ^ D[t[(i+s3)%BC]&0xFF]) ^ K[r][i]` -/
+def colWord (A B C D : Array Nat) (K t : List Nat) (s1 s2 s3 r i : Nat) : Except Err Nat := do
+  let x1 ← aidx A (byteOf (← idx t i) 24)
+  let x2 ← aidx B (byteOf (← idx t ((i + s1) % 4)) 16)
+  let x3 ← aidx C (byteOf (← idx t ((i + s2) % 4)) 8)
+  let x4 ← aidx D (byteOf (← idx t ((i + s3) % 4)) 0)
+  pure ((x1 ^^^ x2 ^^^ x3 ^^^ x4) ^^^ (← idx K (4*r + i)))
+
+/-- `for i in range(BC): a[i] = …; t = a[:]` -/
+def roundStep (A B C D : Array Nat) (K : List Nat) (s1 s2 s3 : Nat) (t : List Nat) (r : Nat) :
+    Except Err (List Nat) :=
+  (List.range 4).mapM (colWord A B C D K t s1 s2 s3 r)
+
+/-- the four result bytes of column `i` in the last round -/
+def lastCol (Sb : Array Nat) (K t : List Nat) (s1 s2 s3 rounds i : Nat) : Except Err (List Nat) := do
+  let tt ← idx K (4*rounds + i)
+  pure [((← aidx Sb (byteOf (← idx t i) 24)) ^^^ (tt >>> 24)) &&& 0xFF,
+        ((← aidx Sb (byteOf (← idx t ((i + s1) % 4)) 16)) ^^^ (tt >>> 16)) &&& 0xFF,
+        ((← aidx Sb (byteOf (← idx t ((i + s2) % 4)) 8)) ^^^ (tt >>> 8)) &&& 0xFF,
+        ((← aidx Sb (byteOf (← idx t ((i + s3) % 4)) 0)) ^^^ tt) &&& 0xFF]
+
+/-- the first key addition: `t[i] = word(block[4i..4i+3]) ^ K[0][i]` -/
+def firstStep (K : List Nat) (block : Bytes) : Except Err (List Nat) :=
+  (List.range 4).mapM fun i => do pure ((← wordAt block i) ^^^ (← idx K i))
+
 /-- the table rounds and the special last round shared by `encrypt` and `decrypt` -/
 def crypt (K : List Nat) (rounds : Nat) (A B C D Sb : Array Nat) (s : List Nat) (block : Bytes) :
     Except Err Bytes :=
   if block.length ≠ 16 then .error .value else do
     let s1 ← idx s 0; let s2 ← idx s 1; let s3 ← idx s 2
-    let BC := 4
-    let t ← (List.range BC).mapM fun i => do pure ((← wordAt block i) ^^^ (← idx K i))
-    let t ← (List.range' 1 (rounds - 1)).foldlM (fun (t : List Nat) r =>
-      (List.range BC).mapM fun i => do
-        pure (((← aidx A (byteOf (← idx t i) 24)) ^^^ (← aidx B (byteOf (← idx t ((i + s1) % BC)) 16)) ^^^
-               (← aidx C (byteOf (← idx t ((i + s2) % BC)) 8)) ^^^ (← aidx D (byteOf (← idx t ((i + s3) % BC)) 0))) ^^^
-              (← idx K (4*r + i)))) t
-    let res ← (List.range BC).mapM fun i => do
-      let tt ← idx K (4*rounds + i)
-      pure [((← aidx Sb (byteOf (← idx t i) 24)) ^^^ (tt >>> 24)) &&& 0xFF,
-            ((← aidx Sb (byteOf (← idx t ((i + s1) % BC)) 16)) ^^^ (tt >>> 16)) &&& 0xFF,
-            ((← aidx Sb (byteOf (← idx t ((i + s2) % BC)) 8)) ^^^ (tt >>> 8)) &&& 0xFF,
-            ((← aidx Sb (byteOf (← idx t ((i + s3) % BC)) 0)) ^^^ tt) &&& 0xFF]
+    let t ← firstStep K block
+    let t ← (List.range' 1 (rounds - 1)).foldlM (roundStep A B C D K s1 s2 s3) t
+    let res ← (List.range 4).mapM (lastCol Sb K t s1 s2 s3 rounds)
     pure (res.flatten.map UInt8.ofNat)
 
 def encrypt (k : Keys) (pt : Bytes) : Except Err Bytes := crypt k.Ke k.rounds T1 T2 T3 T4 S shiftsEnc pt
@@ -192,14 +208,16 @@ def keyExpansion (key : Bytes) : List (List UInt8) :=
 
 def roundKey (w : List (List UInt8)) (r : Nat) : State := ((w.drop (4*r)).take 4).flatten
 
+/-- §5.1 Cipher, with the round keys given as a function of the round number -/
+def cipherRK (rk : Nat → State) (nr : Nat) (inp : Bytes) : Bytes :=
+  let s := addRoundKey inp (rk 0)
+  let s := (List.range' 1 (nr - 1)).foldl (fun s r =>
+    addRoundKey (mixColumns (shiftRows (subBytes s))) (rk r)) s
+  addRoundKey (shiftRows (subBytes s)) (rk nr)
+
 /-- §5.1 Cipher -/
 def cipher (key inp : Bytes) : Bytes :=
-  let w := keyExpansion key
-  let nr := key.length / 4 + 6
-  let s := addRoundKey inp (roundKey w 0)
-  let s := (List.range' 1 (nr - 1)).foldl (fun s r =>
-    addRoundKey (mixColumns (shiftRows (subBytes s))) (roundKey w r)) s
-  addRoundKey (shiftRows (subBytes s)) (roundKey w nr)
+  cipherRK (roundKey (keyExpansion key)) (key.length / 4 + 6) inp
 
 /-- §5.3 InvCipher -/
 def invCipher (key inp : Bytes) : Bytes :=
